@@ -111,6 +111,12 @@ pub fn guard<T>(what: &str, f: impl FnOnce() -> T) -> V<T> {
         Ok(v) => Ok(v),
         Err(p) => {
             let msg = take_panic_message(p);
+            // a panic raised by the harness's own code (relative source path) is a harness
+            // defect, never a finding against the crate: let it propagate to the driver
+            if msg.split(" @ ").nth(1).is_some_and(|loc| loc.starts_with("src/")) {
+                LAST_PANIC.with(|l| *l.borrow_mut() = Some(msg.clone()));
+                std::panic::resume_unwind(Box::new(msg));
+            }
             Err(Violation::new(format!("panic:{}", panic_kind(&msg)), format!("{what} panicked: {msg}")))
         }
     }
